@@ -97,7 +97,7 @@ Print Assumptions C06_replacement_step.
 Theorem C06_specials_end_to_end : forall rd fuel toks st st' out,
   bcl py_tables (macros st) toks ->
   exec py_tables rd fuel (TSeq toks None []) st = Ok (st', ASeq out []) ->
-  filter (solid py_isspace) out = filter (solid py_isspace) (texts (rtoks py_tables toks)).
+  filter (solid py_isspace) out = filter (solid py_isspace) (texts (rtoks py_tables (macros st) toks)).
 Proof.
   exact (fun rd fuel toks st st' out =>
            exec_args_positions py_tables rd (eq_refl true) (fun c => eq_refl) (eq_refl true)
